@@ -14,7 +14,9 @@ RULE = ("corpus + seeded calls of BaseGridder.grid / profile / scatter on an asy
         "dyadic coefficients) over regions (given or defaulting to region_), shapes/spacings (both adjust modes, both registrations), extra_coords, explicit "
         "1-D or 2-D coordinates (+ 2-D extra coordinates), projections (affine, shear, cubic, square), custom dims and data names, plus single "
         "inconsistencies (coordinates+shape, coordinates+region, non-meshgrid, name counts, >3 unnamed components, no region); fitted Trend and "
-        "CheckerBoard grids are checked by the oracle; non-trivial = accepted call with >= 2 output cells/rows; distinct = distinct protocol lines")
+        "CheckerBoard grids, and grid()/scatter() with the DEFAULT region on ten kinds of really fitted gridders (incl. chains starting with block "
+        "reductions and vectors: region_ must be the bounding box of the data given to fit), are checked by the oracle; explicit coordinates come in "
+        "ascending, descending and shuffled order; non-trivial = accepted call with >= 2 output cells/rows; distinct = distinct protocol lines")
 ASSUMPTIONS = ["xarray/pandas containers (see C18)", "RandomState variates are inputs of the model (scatter)",
                "profile distances compared through their squares (model is rational); profile trigonometry absorbed by 1e-9 tolerance"]
 TRUSTED = ["xarray.Dataset, pandas.DataFrame", "numpy.hypot/arctan2/cos/sin in profile_coordinates"]
@@ -91,6 +93,8 @@ def corpus():
           mk_grid(ONE, None, [0.0, 4.0, 0.0, 2.0], None, [1.0, 2.0], "region", True, [5.0, 6.0], None, ["shear", [0.5]], ("lat", "lon"), ["a"], "corpus-all"),
           mk_grid(ONE + ONE, None, None, None, None, "spacing", False, None, [e, n, []], None, None, None, "corpus-coords-1d"),
           mk_grid(ONE, None, None, None, None, "spacing", False, None, [E, N, [up]], None, None, None, "corpus-coords-2d"),
+          mk_grid(ONE, None, None, None, None, "spacing", False, None, [[4.0, 2.0, 1.0], [20.0, 10.0], []], None, None, None, "corpus-coords-1d-descending"),
+          mk_grid(ONE, None, None, None, None, "spacing", False, None, [[[4.0, 2.0, 1.0]] * 2, [[20.0] * 3, [10.0] * 3], [up]], None, None, None, "corpus-coords-2d-descending"),
           mk_grid(ONE, None, [0.0, 4.0, 0.0, 2.0], (2, 2), None, "spacing", False, None, [e, n, []], None, None, None, "bad-coords+shape"),
           mk_grid(ONE, None, [0.0, 4.0, 0.0, 2.0], None, None, "spacing", False, None, [e, n, []], None, None, None, "bad-coords+region"),
           mk_grid(ONE, None, None, (2, 2), None, "spacing", False, None, None, None, None, None, "bad-no-region"),
@@ -100,6 +104,9 @@ def corpus():
           mk_profile(ONE, (0.0, 0.0), (4.0, 2.0), 3, ["shear", [0.5]], [7.0], None, None, "corpus-profile"),
           mk_profile(ONE * 2, (1.0, -1.0), (1.0, 5.0), 5, None, None, ("y", "x"), ["u", "v"], "corpus-profile-vertical"),
           mk_scatter(ONE, [0.0, 4.0, 0.0, 2.0], None, 5, 0, None, None, None, None, "corpus-scatter")]
+    for k, which in enumerate(FITTED):
+        cs.append(mk_fitted(which, 11 + k, (3, 4), None, "fitted-" + which))
+        cs.append(mk_fitted(which, 31 + k, None, (1.5, 2.5), "fitted-" + which))
     for which in ("trend", "checker"):
         cs.append(mk_real(which, [0.0, 10.0, -5.0, 0.0], (3, 5), None, False, None, "real-" + which))
         cs.append(mk_real(which, [2.0, 9.0, -4.0, 3.0], None, (1.75, 1.0), True, ["shear", [0.5]], "real-" + which))
@@ -110,6 +117,11 @@ def corpus():
 def generate(rng, tier):
     n = 300 if tier == "quick" else 6000
     cs = []
+    for _ in range(12 if tier == "quick" else 150):
+        if rng.random() < 0.5:
+            cs.append(mk_fitted(rng.choice(FITTED), rng.randint(100, 10**6), (rng.randint(1, 6), rng.randint(1, 6)), None, "fitted-default-region"))
+        else:
+            cs.append(mk_fitted(rng.choice(FITTED), rng.randint(100, 10**6), None, (rng.randint(2, 12) / 4.0, rng.randint(2, 12) / 4.0), "fitted-default-region"))
     for _ in range(n):
         u = rng.random()
         ncomp = rng.choice([1, 1, 2, 3])
@@ -132,6 +144,18 @@ def generate(rng, tier):
             ne, nn = rng.randint(1, 6), rng.randint(1, 6)
             e = sorted(set(rng.randint(-40, 40) / 4.0 for _ in range(ne)))
             no = sorted(set(rng.randint(-40, 40) / 4.0 for _ in range(nn)))
+            # explicit coordinates need not be ascending (north-up rasters are descending; any order is a legitimate axis)
+            order = rng.random()
+            if order < 0.25:
+                e.reverse()
+            elif order < 0.5:
+                no.reverse()
+            elif order < 0.6:
+                e.reverse()
+                no.reverse()
+            elif order < 0.7:
+                rng.shuffle(e)
+                rng.shuffle(no)
             nex = rng.choice([0, 0, 1, 2])
             ex = [[[rng.randint(-99, 99) / 2.0 for _ in e] for _ in no] for _ in range(nex)]
             if rng.random() < 0.5:
@@ -156,6 +180,60 @@ def generate(rng, tier):
             rdef, region = (reg, None) if rng.random() < 0.5 else (None, reg)
             cs.append(mk_scatter(coefs, rdef, region, rng.randint(1, 12), rng.randint(0, 10**6), extra, rand_proj(rng), dims, names, "scatter"))
     return cs
+
+
+FITTED = ["trend", "spline", "knn", "linear", "cubic", "chain_block_trend", "chain_blockmean_spline", "chain_trend_knn", "vector",
+          "chain_block_vector"]
+
+
+def mk_fitted(which, seed, shape, spacing, kind):
+    return {"fn": "fitted", "kind": kind, "args": [which, seed, shape, spacing], "op": "check_region [ 0 1 0 1 ]",
+            "key": f"{which}-{seed}-{shape}-{spacing}"}
+
+
+def _fitted(a):
+    """A real gridder fitted to scattered data; grid()/scatter() with the DEFAULT region must use the bounding box of the data
+    given to fit (not of anything a step of a chain derived from them) and place predict() values at their own nodes."""
+    which, seed, shape, spacing = a
+    rs = np.random.RandomState(seed)
+    npts = 40
+    e = np.round(rs.uniform(-3.0, 9.0, npts) * 8) / 8
+    n = np.round(rs.uniform(10.0, 17.0, npts) * 8) / 8
+    d = 2.0 + 0.5 * e - 0.25 * n + 0.125 * e * n
+    d2 = -1.0 + 0.25 * e + 0.5 * n
+    red = lambda: vd.BlockReduce(np.mean, spacing=3.0)  # noqa: E731
+    vec = which in ("vector", "chain_block_vector")
+    g = {"trend": lambda: vd.Trend(2), "spline": lambda: vd.Spline(mindist=0.5), "knn": lambda: vd.KNeighbors(k=3),
+         "linear": lambda: vd.Linear(), "cubic": lambda: vd.Cubic(),
+         "chain_block_trend": lambda: vd.Chain([("reduce", red()), ("trend", vd.Trend(1))]),
+         "chain_blockmean_spline": lambda: vd.Chain([("mean", vd.BlockMean(spacing=2.5)), ("spline", vd.Spline(mindist=1.0, damping=1e-3))]),
+         "chain_trend_knn": lambda: vd.Chain([("trend", vd.Trend(1)), ("knn", vd.KNeighbors(k=2))]),
+         "vector": lambda: vd.Vector([vd.Trend(1), vd.Trend(2)]),
+         "chain_block_vector": lambda: vd.Chain([("reduce", red()), ("vector", vd.Vector([vd.Trend(1), vd.Trend(1)]))])}[which]()
+    g.fit((e, n), (d, d2) if vec else d)
+    reg = [float(e.min()), float(e.max()), float(n.min()), float(n.max())]
+    out = {"region_": [float(v) for v in g.region_], "bbox": reg}
+    ds = g.grid(shape=shape, spacing=spacing)
+    exp = vd.grid_coordinates(tuple(reg), shape=shape, spacing=spacing)
+    names = list(ds.data_vars)
+    east, north = ds.coords["easting"].values, ds.coords["northing"].values
+    out["coords_ok"] = bool(east.shape == exp[0][0, :].shape and north.shape == exp[1][:, 0].shape
+                            and np.array_equal(exp[0][0, :], east) and np.array_equal(exp[1][:, 0], north))
+    E, N = np.meshgrid(east, north)
+    pred = g.predict((E, N))
+    pred = pred if vec else (pred,)
+    worst = 0.0
+    for nm, p in zip(names, pred):
+        v = ds[nm].values
+        both = np.isnan(v) & np.isnan(p)
+        worst = max(worst, float(np.max(np.where(both, 0.0, np.abs(v - p)) / np.maximum(1.0, np.abs(np.where(both, 1.0, p))))))
+    out["worst"] = worst if worst == worst else 1.0
+    out["nvars"] = len(names)
+    out["ncells"] = int(E.size)
+    tb = g.scatter(size=7, random_state=seed)
+    pts = vd.scatter_points(tuple(reg), 7, random_state=seed)
+    out["scatter_ok"] = bool(np.array_equal(tb["easting"].values, pts[0]) and np.array_equal(tb["northing"].values, pts[1]))
+    return out
 
 
 def mk_real(which, region, shape, spacing, pixel, proj, kind):
@@ -228,6 +306,9 @@ def impl(case):
         if fn == "real":
             r = C.call(_real_grid, a)
             return r if C.is_err(r) else ["real", r]
+        if fn == "fitted":
+            r = C.call(_fitted, a)
+            return r if C.is_err(r) else ["fitted", r]
         if fn == "grid":
             coefs, rdef, region, shape, spacing, adjust, pixel, extra, coords, proj, dims, names = a
             g = _gridder(coefs, rdef)
@@ -265,8 +346,8 @@ def impl(case):
 
 
 def compare(case, io, mo):
-    if case["fn"] == "real":
-        return "ok"      # fitted Trend / CheckerBoard: decided by the oracle on the implementation
+    if case["fn"] in ("real", "fitted"):
+        return "ok"      # fitted gridders: decided by the oracle on the implementation
     r = C.std_compare(io, mo, tol=1e-9)
     if r != "ok" and case["fn"] == "grid" and not C.is_err(io) and case["args"][4] is not None:
         import props.c07 as c07
@@ -294,6 +375,19 @@ def oracle(case, io):
             return f"{a[0]}: grid value differs from predict(easting[j], northing[i]) (relative {r['worst']})"
         if not r["coords_ok"] or r["dims"] != ["northing", "easting"] or not r["meta"]:
             return f"{a[0]}: coordinates/dims/metadata of the grid are wrong"
+        return None
+    if fn == "fitted":
+        if C.is_err(io):
+            return "grid()/scatter() of a fitted gridder with the default region failed: " + io[1]
+        r = io[1]
+        if r["region_"] != r["bbox"]:
+            return f"{a[0]}: region_ {r['region_']} is not the bounding box {r['bbox']} of the data given to fit"
+        if not r["coords_ok"]:
+            return f"{a[0]}: grid() with the default region does not use grid_coordinates of the bounding box of the fitted data"
+        if r["worst"] > 1e-9:
+            return f"{a[0]}: grid value differs from predict(easting[j], northing[i]) (relative {r['worst']})"
+        if not r["scatter_ok"]:
+            return f"{a[0]}: scatter() with the default region does not predict at scatter_points of the bounding box of the fitted data"
         return None
     if fn == "grid":
         coefs, rdef, region, shape, spacing, adjust, pixel, extra, coords, proj, dims, names = a
@@ -402,7 +496,7 @@ def oracle(case, io):
 
 
 def nontrivial(case, io):
-    if case["fn"] == "real":
+    if case["fn"] in ("real", "fitted"):
         return (not C.is_err(io)) and io[1]["ncells"] >= 2
     return (not C.is_err(io)) and len(C.flat(io)) >= 6
 
